@@ -3,9 +3,1110 @@ From Coq Require Import NArith ZArith List Bool Arith Lia.
 Require Import CCP.Lib.PyStr CCP.Model.IntfCfg.
 Import ListNotations.
 
+(* ------------------------------------------------------------------ first match in family order *)
 Lemma first_some_none {A} (f : str -> option A) ls :
   (forall l, In l ls -> f l = None) -> first_some f ls = None.
 Proof.
   induction ls as [|l r IH]; intros H; simpl; [reflexivity|].
   rewrite (H l (or_introl eq_refl)). apply IH. intros l' Hl'. apply H. right. exact Hl'.
+Qed.
+Lemma first_some_unique {A} (f : str -> option A) ls v :
+  (exists l, In l ls /\ f l <> None) ->
+  (forall l v', In l ls -> f l = Some v' -> v' = v) ->
+  first_some f ls = Some v.
+Proof.
+  induction ls as [|l r IH]; intros [l0 [Hin Hne]] Hall; [destruct Hin|].
+  simpl. destruct (f l) as [a|] eqn:E.
+  - f_equal. apply (Hall l a); [left; reflexivity|exact E].
+  - apply IH.
+    + destruct Hin as [E0|Hin]; [subst; congruence|]. exists l0. split; assumption.
+    + intros l' v' Hl'. apply Hall. right. exact Hl'.
+Qed.
+Lemma existsb_false {A} (f : A -> bool) ls : (forall l, In l ls -> f l = false) -> existsb f ls = false.
+Proof.
+  induction ls as [|l r IH]; intros H; simpl; [reflexivity|].
+  rewrite (H l (or_introl eq_refl)). apply IH. intros l' Hl'. apply H. right. exact Hl'.
+Qed.
+
+(* ------------------------------------------------------------------ decimal numbers *)
+Lemma dec_aux_app x : forall y a,
+  dec_aux a (x ++ y) = match dec_aux a x with Some a' => dec_aux a' y | None => None end.
+Proof.
+  induction x as [|c x IH]; intros y a; [reflexivity|]. simpl. destruct (is_digit c); [apply IH|reflexivity].
+Qed.
+
+Lemma digit_ok (n : N) : (n < 10)%N -> is_digit (48 + n)%N = true /\ digit_val (48 + n)%N = n.
+Proof.
+  intros H. unfold is_digit, digit_val. split.
+  - apply andb_true_iff. split; apply N.leb_le; lia.
+  - lia.
+Qed.
+
+Lemma single_digit (n : N) : (n < 10)%N ->
+  forallb is_digit [(48 + n)%N] = true /\ forall a, dec_aux a [(48 + n)%N] = Some (a * 10 ^ N.of_nat 1 + n)%N.
+Proof.
+  intros H. destruct (digit_ok n H) as [D1 D2]. split.
+  - cbn [forallb]. rewrite D1. reflexivity.
+  - intros a. cbn [dec_aux]. rewrite D1, D2. change (N.of_nat 1) with 1%N. rewrite N.pow_1_r. reflexivity.
+Qed.
+
+Lemma render_dec_fuel_S f n acc :
+  render_dec_fuel (S f) n acc =
+  if (n <? 10)%N then (48 + n mod 10)%N :: acc else render_dec_fuel f (n / 10)%N ((48 + n mod 10)%N :: acc).
+Proof. reflexivity. Qed.
+
+Lemma render_fuel_spec f : forall n acc, (n < 2 ^ N.of_nat (S f))%N ->
+  exists ds, render_dec_fuel (S f) n acc = ds ++ acc /\ ds <> [] /\ forallb is_digit ds = true /\
+             forall a, dec_aux a ds = Some (a * 10 ^ N.of_nat (length ds) + n)%N.
+Proof.
+  induction f as [|f IH]; intros n acc Hn.
+  - assert (H : (n < 10)%N) by (simpl in Hn; lia).
+    exists [(48 + n)%N]. rewrite render_dec_fuel_S. rewrite N.mod_small by exact H.
+    apply N.ltb_lt in H. rewrite H. apply N.ltb_lt in H. destruct (single_digit n H) as [S1 S2].
+    repeat split; [discriminate|exact S1|exact S2].
+  - rewrite render_dec_fuel_S. destruct (n <? 10)%N eqn:E.
+    + apply N.ltb_lt in E. rewrite N.mod_small by exact E. destruct (single_digit n E) as [S1 S2].
+      exists [(48 + n)%N]. repeat split; [discriminate|exact S1|exact S2].
+    + apply N.ltb_ge in E.
+      assert (Hq : (n / 10 < 2 ^ N.of_nat (S f))%N).
+      { apply N.div_lt_upper_bound; [lia|]. rewrite Nat2N.inj_succ, N.pow_succ_r' in Hn. lia. }
+      destruct (IH (n / 10)%N ((48 + n mod 10)%N :: acc) Hq) as [ds [E1 [E2 [E3 E4]]]].
+      assert (Hm : (n mod 10 < 10)%N) by (apply N.mod_lt; lia).
+      destruct (digit_ok (n mod 10) Hm) as [D1 D2].
+      exists (ds ++ [(48 + n mod 10)%N]). repeat split.
+      * rewrite E1, <- app_assoc. reflexivity.
+      * destruct ds; discriminate.
+      * rewrite forallb_app. apply andb_true_iff. split; [exact E3|]. cbn [forallb]. rewrite D1. reflexivity.
+      * intros a. rewrite dec_aux_app, E4. cbn [dec_aux]. rewrite D1, D2. f_equal.
+        rewrite app_length. cbn [length]. rewrite Nat.add_1_r, Nat2N.inj_succ, N.pow_succ_r'.
+        pose proof (N.div_mod n 10 ltac:(lia)) as DM. lia.
+Qed.
+
+Lemma render_dec_spec n : exists ds, render_dec n = ds /\ ds <> [] /\ forallb is_digit ds = true /\ parse_dec ds = Some n.
+Proof.
+  unfold render_dec.
+  assert (Hn : (n < 2 ^ N.of_nat (S (N.to_nat (N.log2 n))))%N).
+  { rewrite Nat2N.inj_succ, N2Nat.id. destruct n as [|p]; [reflexivity|].
+    destruct (N.log2_spec (N.pos p)) as [_ H]; [reflexivity|exact H]. }
+  destruct (render_fuel_spec (N.to_nat (N.log2 n)) n [] Hn) as [ds [E1 [E2 [E3 E4]]]].
+  rewrite app_nil_r in E1. exists ds. repeat split; try assumption.
+  unfold parse_dec. destruct ds; [congruence|]. rewrite E4. f_equal; lia.
+Qed.
+Lemma render_dec_digits n : forallb is_digit (render_dec n) = true.
+Proof. destruct (render_dec_spec n) as [ds [E [_ [H _]]]]. rewrite E. exact H. Qed.
+Lemma render_dec_nonempty n : render_dec n <> [].
+Proof. destruct (render_dec_spec n) as [ds [E [H _]]]. rewrite E. exact H. Qed.
+Lemma parse_render_dec n : parse_dec (render_dec n) = Some n.
+Proof. destruct (render_dec_spec n) as [ds [E [_ [_ H]]]]. rewrite E. exact H. Qed.
+Lemma dec_Z_render n : dec_Z (render_dec n) = Some (Z.of_N n).
+Proof. unfold dec_Z. rewrite parse_render_dec. reflexivity. Qed.
+
+(* ------------------------------------------------------------------ spans and the matcher, step by step *)
+(* [char] and [str] are aliases of N and list N; terms obtained by unfolding model definitions mix
+   both spellings in implicit arguments, which defeats syntactic rewriting: normalise first *)
+Ltac nrw H := let HH := fresh "HH" in pose proof H as HH; unfold char, str in HH |- *; rewrite HH; clear HH.
+Definition spc : char := 32%N.
+Definition stops (p : char -> bool) (rest : str) : Prop := match rest with [] => True | c :: _ => p c = false end.
+
+Lemma span_all p (l rest : str) : forallb p l = true -> stops p rest -> span p (l ++ rest) = (l, rest).
+Proof.
+  induction l as [|c l IH]; intros H S.
+  - simpl. destruct rest as [|c r]; [reflexivity|]. simpl in S. simpl. rewrite S. reflexivity.
+  - simpl in H. apply andb_true_iff in H. destruct H as [Hc Hl]. simpl. rewrite Hc, (IH Hl S). reflexivity.
+Qed.
+Lemma span1_all p (l rest : str) : l <> [] -> forallb p l = true -> stops p rest -> span1 p (l ++ rest) = Some (l, rest).
+Proof. intros Hn H S. unfold span1. rewrite (span_all p l rest H S). destruct l; [congruence|reflexivity]. Qed.
+
+Lemma lstrip_stop (t : str) : stops is_space t -> lstrip t = t.
+Proof. destruct t as [|c r]; [reflexivity|]. simpl. intros H. unfold lstrip. simpl. rewrite H. reflexivity. Qed.
+Lemma lstrip_repeat n (t : str) : lstrip (repeat spc n ++ t) = lstrip t.
+Proof. induction n as [|n IH]; [reflexivity|exact IH]. Qed.
+
+Definition prepend (c : list (option str)) (r : mres) : mres :=
+  match r with Some (c2, s2) => Some (c ++ c2, s2) | None => None end.
+Lemma pm_cons it r s : pm (it :: r) s = match pm_it it s with Some (c1, s1) => prepend c1 (pm r s1) | None => None end.
+Proof. reflexivity. Qed.
+Lemma prepend_nil r : prepend [] r = r.
+Proof. destruct r as [[c s]|]; reflexivity. Qed.
+
+Lemma pm_nil s : pm [] s = Some ([], s).
+Proof. reflexivity. Qed.
+Lemma pm_end_nil r : pm (End :: r) [] = pm r [].
+Proof. rewrite pm_cons. simpl. apply prepend_nil. Qed.
+Lemma pm_end_fail r c s : pm (End :: r) (c :: s) = None.
+Proof. reflexivity. Qed.
+Lemma pm_ws0 r n t : stops is_space t -> pm (Ws0 :: r) (repeat spc n ++ t) = pm r t.
+Proof. intros H. rewrite pm_cons. cbn [pm_it]. rewrite lstrip_repeat, (lstrip_stop t H). apply prepend_nil. Qed.
+Lemma pm_ws1 r n t : stops is_space t -> pm (Ws1 :: r) (repeat spc (S n) ++ t) = pm r t.
+Proof.
+  intros H. rewrite pm_cons. cbn [pm_it repeat app]. change (is_space spc) with true. cbn iota.
+  rewrite lstrip_repeat, (lstrip_stop t H). apply prepend_nil.
+Qed.
+Lemma pm_ws1_one r t : stops is_space t -> pm (Ws1 :: r) (spc :: t) = pm r t.
+Proof. apply (pm_ws1 r 0 t). Qed.
+Lemma pm_ws1_fail r s : stops is_space s -> pm (Ws1 :: r) s = None.
+Proof. intros H. rewrite pm_cons. destruct s as [|c s']; [reflexivity|]. simpl in H. cbn [pm_it]. rewrite H. reflexivity. Qed.
+Lemma pm_ws_one r t : pm (Ws :: r) (spc :: t) = pm r t.
+Proof. rewrite pm_cons. cbn [pm_it]. change (is_space spc) with true. cbn iota. apply prepend_nil. Qed.
+
+Lemma starts_with_app (w t : str) : starts_with w (w ++ t) = true.
+Proof. induction w as [|c w IH]; [reflexivity|]. simpl. rewrite N.eqb_refl. exact IH. Qed.
+Lemma skipn_app_len (w t : str) : skipn (length w) (w ++ t) = t.
+Proof. induction w as [|c w IH]; [reflexivity|exact IH]. Qed.
+Lemma pm_lit r w t : pm (Lit w :: r) (w ++ t) = pm r t.
+Proof. rewrite pm_cons. cbn [pm_it]. rewrite starts_with_app, skipn_app_len. apply prepend_nil. Qed.
+Lemma pm_lit_fail r w s : starts_with w s = false -> pm (Lit w :: r) s = None.
+Proof. intros H. rewrite pm_cons. cbn [pm_it]. rewrite H. reflexivity. Qed.
+
+Definition digits (d : str) : Prop := d <> [] /\ forallb is_digit d = true.
+Definition word (w : str) : Prop := w <> [] /\ forallb non_space w = true.
+
+Lemma pm_cap_dig r d t : digits d -> stops is_digit t -> pm (Cap KDig :: r) (d ++ t) = prepend [Some d] (pm r t).
+Proof. intros [H1 H2] S. rewrite pm_cons. cbn [pm_it take]. rewrite (span1_all is_digit d t H1 H2 S). reflexivity. Qed.
+Lemma pm_cap_word r w t : word w -> stops non_space t -> pm (Cap KNS1 :: r) (w ++ t) = prepend [Some w] (pm r t).
+Proof. intros [H1 H2] S. rewrite pm_cons. cbn [pm_it take]. rewrite (span1_all non_space w t H1 H2 S). reflexivity. Qed.
+Lemma pm_cap_rest r t : t <> [] -> stops is_space t -> pm (Cap KRest :: r) t = prepend [Some t] (pm r []).
+Proof.
+  intros H1 S. rewrite pm_cons. cbn [pm_it take]. destruct t as [|c t']; [congruence|]. simpl in S. rewrite S. reflexivity.
+Qed.
+
+Lemma stops_nil p : stops p [].
+Proof. exact I. Qed.
+Lemma stops_spc_nonspace t : stops non_space (spc :: t).
+Proof. reflexivity. Qed.
+Lemma stops_spc_digit t : stops is_digit (spc :: t).
+Proof. reflexivity. Qed.
+Lemma digits_render n : digits (render_dec n).
+Proof. split; [apply render_dec_nonempty|apply render_dec_digits]. Qed.
+Lemma digits_stop_space d t : digits d -> stops is_space (d ++ t).
+Proof.
+  intros [H1 H2]. destruct d as [|c d']; [congruence|]. simpl in H2. apply andb_true_iff in H2. destruct H2 as [Hc _].
+  simpl. unfold is_digit in Hc. apply andb_true_iff in Hc. destruct Hc as [A B]. apply N.leb_le in A, B.
+  destruct c as [|p]; [lia|]. unfold is_space.
+  do 6 (destruct p as [p|p|]; try reflexivity; try lia).
+Qed.
+
+Lemma word_stop_space w t : word w -> stops is_space (w ++ t).
+Proof.
+  intros [H1 H2]. destruct w as [|c w']; [congruence|]. simpl in H2. apply andb_true_iff in H2. destruct H2 as [Hc _].
+  simpl. unfold non_space in Hc. apply negb_true_iff in Hc. exact Hc.
+Qed.
+Lemma digits_head_ne d t w c0 : digits d -> is_digit c0 = false -> starts_with (c0 :: w) (d ++ t) = false.
+Proof.
+  intros [H1 H2] Hc. destruct d as [|c d']; [congruence|]. simpl in H2. apply andb_true_iff in H2. destruct H2 as [Hd _].
+  simpl. destruct (N.eqb c0 c) eqn:E; [|reflexivity]. apply N.eqb_eq in E. subst. congruence.
+Qed.
+
+(* dotted quads *)
+Definition quad := (str * str * str * str)%type.
+Definition wfq (q : quad) : Prop := let '(a, b, c, d) := q in digits a /\ digits b /\ digits c /\ digits d.
+Definition render_quad (q : quad) : str := let '(a, b, c, d) := q in a ++ [dot] ++ b ++ [dot] ++ c ++ [dot] ++ d.
+Lemma stops_dot t : stops is_digit (dot :: t).
+Proof. reflexivity. Qed.
+Lemma take_quad_render q t : wfq q -> stops is_digit t -> take_quad (render_quad q ++ t) = Some (render_quad q, t).
+Proof.
+  destruct q as [[[a b] c] d]. intros [[A1 A2] [[B1 B2] [[C1 C2] [D1 D2]]]] S. unfold render_quad, take_quad.
+  rewrite <- !app_assoc. simpl app.
+  nrw (span1_all is_digit a (dot :: b ++ dot :: c ++ dot :: d ++ t) A1 A2 (stops_dot _)). change (N.eqb dot dot) with true. cbn iota.
+  nrw (span1_all is_digit b (dot :: c ++ dot :: d ++ t) B1 B2 (stops_dot _)). change (N.eqb dot dot) with true. cbn iota.
+  nrw (span1_all is_digit c (dot :: d ++ t) C1 C2 (stops_dot _)). change (N.eqb dot dot) with true. cbn iota.
+  nrw (span1_all is_digit d t D1 D2 S). reflexivity.
+Qed.
+Lemma pm_cap_quad r q t : wfq q -> stops is_digit t -> pm (Cap KQuad :: r) (render_quad q ++ t) = prepend [Some (render_quad q)] (pm r t).
+Proof. intros W S. rewrite pm_cons. cbn [pm_it take]. rewrite (take_quad_render q t W S). reflexivity. Qed.
+Lemma pm_skp_quad r q t : wfq q -> stops is_digit t -> pm (Skp KQuad :: r) (render_quad q ++ t) = pm r t.
+Proof. intros W S. rewrite pm_cons. cbn [pm_it take]. rewrite (take_quad_render q t W S). apply prepend_nil. Qed.
+Lemma quad_digits_head q t : wfq q -> exists d t', digits d /\ render_quad q ++ t = d ++ t'.
+Proof.
+  destruct q as [[[a b] c] d]. intros [A _]. exists a, ([dot] ++ b ++ [dot] ++ c ++ [dot] ++ d ++ t). split; [exact A|].
+  unfold render_quad. rewrite <- !app_assoc. reflexivity.
+Qed.
+Lemma quad_stop_space q t : wfq q -> stops is_space (render_quad q ++ t).
+Proof. intros W. destruct (quad_digits_head q t W) as [d [t' [D E]]]. rewrite E. apply digits_stop_space. exact D. Qed.
+
+(* ------------------------------------------------------------------ attribute lines of an interface stanza *)
+Definition s_shutdown : str := s_shut ++ [100; 111; 119; 110]%N.
+Inductive attr :=
+| A_description (n : nat) (txt : str)
+| A_mtu (n : nat) (v : N)
+| A_vrf (n : nat) (with_ip : bool) (name : str)
+| A_shutdown (n : nat)
+| A_channel (n : nat) (grp : N) (mode : str)
+| A_address (n : nat) (a m : quad)
+| A_secondary (n : nat) (a m : quad)
+| A_other (l : str).
+
+Definition ind (n : nat) : str := repeat spc (S n).
+Definition render (a : attr) : str :=
+  match a with
+  | A_description n txt => ind n ++ s_description ++ [spc] ++ txt
+  | A_mtu n v => ind n ++ s_mtu ++ [spc] ++ render_dec v
+  | A_vrf n ip name => ind n ++ (if ip then s_ip ++ [spc] else []) ++ s_vrf ++ [spc] ++ s_forwarding ++ [spc] ++ name
+  | A_shutdown n => ind n ++ s_shutdown
+  | A_channel n g mode => ind n ++ s_channel_group ++ [spc] ++ render_dec g ++ [spc] ++ s_mode ++ [spc] ++ mode
+  | A_address n a m => ind n ++ s_ip ++ [spc] ++ s_address ++ [spc] ++ render_quad a ++ [spc] ++ render_quad m
+  | A_secondary n a m => ind n ++ s_ip ++ [spc] ++ s_address ++ [spc] ++ render_quad a ++ [spc] ++ render_quad m ++ [spc] ++ s_secondary
+  | A_other l => l
+  end.
+
+(* the line parsers behind the accessors *)
+Definition f_description := cap_n 0 P_description.
+Definition f_mtu := cap_n 0 P_mtu.
+Definition f_vrf := cap_n 0 P_vrf.
+Definition f_channel := cap_n 0 P_channel.
+Definition f_v4addr := cap_n 0 P_v4addr.
+Definition f_v4mask := cap_n 0 P_v4mask.
+
+(* an unrelated line: none of the modelled patterns matches it *)
+Definition unrelated (l : str) : Prop :=
+  f_description l = None /\ f_mtu l = None /\ f_vrf l = None /\ matches P_shutdown l = false /\ f_channel l = None /\
+  f_v4addr l = None /\ f_v4mask l = None /\ matches P_v4dhcp l = false /\ matches P_v4negotiated l = false.
+
+Definition valid (a : attr) : Prop :=
+  match a with
+  | A_description _ txt => txt <> [] /\ stops is_space txt
+  | A_vrf _ _ name => word name
+  | A_channel _ _ mode => word mode
+  | A_address _ a m => wfq a /\ wfq m
+  | A_secondary _ a m => wfq a /\ wfq m
+  | A_other l => unrelated l
+  | _ => True
+  end.
+
+Lemma pm_ind r n t : stops is_space t -> pm (Ws0 :: r) (ind n ++ t) = pm r t.
+Proof. apply pm_ws0. Qed.
+Lemma pm_ind1 r n t : stops is_space t -> pm (Ws1 :: r) (ind n ++ t) = pm r t.
+Proof. apply pm_ws1. Qed.
+
+Ltac stop_tac := first [exact I | reflexivity | apply stops_nil
+                       | solve [apply quad_stop_space; assumption]
+                       | solve [apply word_stop_space; assumption]
+                       | solve [apply digits_stop_space; auto using digits_render]].
+(* keyword mismatch right after the indentation *)
+Ltac kw_fail := rewrite pm_lit_fail by reflexivity; reflexivity.
+
+(* normalised copies of the step lemmas (no [char]/[str] aliases in implicit arguments) *)
+Ltac norm_of H := let T := type of H in let T' := eval unfold char, str in T in exact (H : T').
+Definition n_pm_ind := ltac:(norm_of pm_ind).
+Definition n_pm_ind1 := ltac:(norm_of pm_ind1).
+Definition n_pm_lit := ltac:(norm_of pm_lit).
+Definition n_pm_lit_fail := ltac:(norm_of pm_lit_fail).
+Definition n_pm_ws1_one := ltac:(norm_of pm_ws1_one).
+Definition n_pm_ws1_fail := ltac:(norm_of pm_ws1_fail).
+Definition n_pm_ws_one := ltac:(norm_of pm_ws_one).
+Definition n_pm_cap_dig := ltac:(norm_of pm_cap_dig).
+Definition n_pm_cap_word := ltac:(norm_of pm_cap_word).
+Definition n_pm_cap_rest := ltac:(norm_of pm_cap_rest).
+Definition n_pm_cap_quad := ltac:(norm_of pm_cap_quad).
+Definition n_pm_skp_quad := ltac:(norm_of pm_skp_quad).
+Definition n_pm_end_nil := ltac:(norm_of pm_end_nil).
+Definition n_pm_end_fail := ltac:(norm_of pm_end_fail).
+Definition n_pm_nil := ltac:(norm_of pm_nil).
+
+Ltac norm := unfold char, str in *.
+Ltac t_ind := rewrite n_pm_ind by stop_tac.
+Ltac t_ind1 := rewrite n_pm_ind1 by stop_tac.
+Ltac t_lit := rewrite n_pm_lit.
+Ltac t_sp := rewrite n_pm_ws1_one by stop_tac.
+Ltac t_fail := rewrite n_pm_lit_fail by reflexivity.
+
+Lemma f_mtu_render a : valid a ->
+  f_mtu (render a) = match a with A_mtu _ v => Some (render_dec v) | _ => None end.
+Proof.
+  destruct a; intros V; unfold f_mtu, cap_n, caps, P_mtu, render; cbn [valid] in V; norm; cbn [app].
+  - t_ind. t_fail. reflexivity.
+  - t_ind. t_lit. rewrite <- (app_nil_r (render_dec v)). t_sp.
+    rewrite n_pm_cap_dig by (auto using digits_render, stops_nil). rewrite n_pm_end_nil, n_pm_nil. rewrite app_nil_r. reflexivity.
+  - destruct with_ip; t_ind; t_fail; reflexivity.
+  - t_ind. t_fail. reflexivity.
+  - t_ind. t_fail. reflexivity.
+  - t_ind. t_fail. reflexivity.
+  - t_ind. t_fail. reflexivity.
+  - apply V.
+Qed.
+
+Lemma pm_ws0_one r t : stops is_space t -> pm (Ws0 :: r) (spc :: t) = pm r t.
+Proof. apply (pm_ws0 r 1 t). Qed.
+Lemma pm_ws0_nil r : pm (Ws0 :: r) [] = pm r [].
+Proof. rewrite pm_cons. cbn [pm_it]. apply prepend_nil. Qed.
+Fixpoint star_loop (g : list pit) (n : nat) (s0 : str) : str :=
+  match n with
+  | O => s0
+  | S n' => match pm g s0 with
+            | Some (_, s') => if Nat.ltb (length s') (length s0) then star_loop g n' s' else s0
+            | None => s0
+            end
+  end.
+Lemma pm_it_star g s : pm_it (Star g) s = Some ([], star_loop g (length s) s).
+Proof.
+  cbn [pm_it]. f_equal. f_equal. generalize (length s) as n. intros n. revert s.
+  induction n as [|n IH]; intros s0; [reflexivity|].
+  cbn [star_loop]. unfold pm. destruct (pm_seq pm_it g s0) as [[c s']|]; [|reflexivity].
+  destruct (Nat.ltb (length s') (length s0)); [apply IH|reflexivity].
+Qed.
+Lemma pm_star_zero g r s : pm g s = None -> pm (Star g :: r) s = pm r s.
+Proof.
+  intros H. rewrite pm_cons, pm_it_star. destruct (length s) as [|n]; cbn [star_loop]; [apply prepend_nil|].
+  rewrite H. apply prepend_nil.
+Qed.
+Lemma pm_star_one g r s c s' : pm g s = Some (c, s') -> length s' < length s -> pm g s' = None ->
+  pm (Star g :: r) s = pm r s'.
+Proof.
+  intros H L H'. rewrite pm_cons, pm_it_star. destruct (length s) as [|n] eqn:E; [lia|]. cbn [star_loop].
+  rewrite H, E. apply Nat.ltb_lt in L. rewrite L. destruct n as [|n']; cbn [star_loop]; [apply prepend_nil|].
+  rewrite H'. apply prepend_nil.
+Qed.
+Lemma quad_lit_fail c0 w q t : wfq q -> is_digit c0 = false -> starts_with (c0 :: w) (render_quad q ++ t) = false.
+Proof.
+  intros W H. destruct (quad_digits_head q t W) as [d [t' [D E]]]. rewrite E. apply digits_head_ne; assumption.
+Qed.
+Definition n_pm_ws0_one := ltac:(norm_of pm_ws0_one).
+Definition n_pm_ws0_nil := ltac:(norm_of pm_ws0_nil).
+Definition n_pm_star_zero := ltac:(norm_of pm_star_zero).
+Definition n_pm_star_one := ltac:(norm_of pm_star_one).
+Definition n_quad_lit_fail := ltac:(norm_of quad_lit_fail).
+
+Ltac fin := rewrite ?n_pm_end_nil, ?n_pm_nil, ?app_nil_r; try reflexivity.
+
+Lemma f_description_render a : valid a ->
+  f_description (render a) = match a with A_description _ txt => Some txt | _ => None end.
+Proof.
+  destruct a; intros V; unfold f_description, cap_n, caps, P_description, render; cbn [valid] in V; norm; cbn [app].
+  - destruct V as [V1 V2]. t_ind. t_lit. rewrite n_pm_ws1_one by exact V2. rewrite n_pm_cap_rest by assumption. fin.
+  - t_ind. t_fail. reflexivity.
+  - destruct with_ip; t_ind; t_fail; reflexivity.
+  - t_ind. t_fail. reflexivity.
+  - t_ind. t_fail. reflexivity.
+  - t_ind. t_fail. reflexivity.
+  - t_ind. t_fail. reflexivity.
+  - apply V.
+Qed.
+
+Lemma f_channel_render a : valid a ->
+  f_channel (render a) = match a with A_channel _ g _ => Some (render_dec g) | _ => None end.
+Proof.
+  destruct a; intros V; unfold f_channel, cap_n, caps, P_channel, render; cbn [valid] in V; norm; cbn [app].
+  - t_ind. t_fail. reflexivity.
+  - t_ind. t_fail. reflexivity.
+  - destruct with_ip; t_ind; t_fail; reflexivity.
+  - t_ind. t_fail. reflexivity.
+  - t_ind. t_lit. t_sp. rewrite n_pm_cap_dig by (auto using digits_render; reflexivity). fin.
+  - t_ind. t_fail. reflexivity.
+  - t_ind. t_fail. reflexivity.
+  - apply V.
+Qed.
+
+Lemma shutdown_render a : valid a ->
+  matches P_shutdown (render a) = match a with A_shutdown _ => true | _ => false end.
+Proof.
+  destruct a; intros V; unfold matches, P_shutdown, render; cbn [valid] in V; norm; cbn [app].
+  - t_ind. t_fail. reflexivity.
+  - t_ind. t_fail. reflexivity.
+  - destruct with_ip; t_ind; t_fail; reflexivity.
+  - t_ind. unfold s_shutdown. t_lit. reflexivity.
+  - t_ind. t_fail. reflexivity.
+  - t_ind. t_fail. reflexivity.
+  - t_ind. t_fail. reflexivity.
+  - apply V.
+Qed.
+
+Lemma len_ip (t : list N) : length t < length (s_ip ++ spc :: t).
+Proof. rewrite app_length. simpl. lia. Qed.
+
+Lemma f_vrf_render a : valid a ->
+  f_vrf (render a) = match a with A_vrf _ _ name => Some name | _ => None end.
+Proof.
+  assert (Z0 : forall t : list N, starts_with s_ip t = false -> pm [Lit s_ip; Ws1] t = None).
+  { intros t H. norm. rewrite n_pm_lit_fail by exact H. reflexivity. }
+  destruct a; intros V; unfold f_vrf, cap_n, caps, P_vrf, render; cbn [valid] in V; norm; cbn [app].
+  - t_ind. rewrite n_pm_star_zero by (apply Z0; reflexivity). t_fail. reflexivity.
+  - t_ind. rewrite n_pm_star_zero by (apply Z0; reflexivity). t_fail. reflexivity.
+  - assert (T : forall r : list pit, pm (Lit s_vrf :: Ws :: Lit s_forwarding :: Ws :: Cap KNS1 :: End :: r)
+                        (s_vrf ++ spc :: s_forwarding ++ spc :: name) = prepend [Some name] (pm r [])).
+    { intros r. norm. t_lit. rewrite n_pm_ws_one. t_lit. rewrite n_pm_ws_one. rewrite <- (app_nil_r name).
+      rewrite n_pm_cap_word by (auto using stops_nil). rewrite n_pm_end_nil. rewrite app_nil_r. reflexivity. }
+    norm. destruct with_ip; rewrite <- ?app_assoc; cbn [app]; t_ind.
+    + rewrite (n_pm_star_one [Lit s_ip; Ws1] _ _ [] (s_vrf ++ spc :: s_forwarding ++ spc :: name)).
+      * rewrite T. fin.
+      * t_lit. t_sp. reflexivity.
+      * apply len_ip.
+      * apply Z0. reflexivity.
+    + rewrite n_pm_star_zero by (apply Z0; reflexivity). rewrite T. fin.
+  - t_ind. rewrite n_pm_star_zero by (apply Z0; reflexivity). t_fail. reflexivity.
+  - t_ind. rewrite n_pm_star_zero by (apply Z0; reflexivity). t_fail. reflexivity.
+  - t_ind. rewrite (n_pm_star_one [Lit s_ip; Ws1] _ _ [] (s_address ++ spc :: render_quad a ++ spc :: render_quad m)).
+    + t_fail. reflexivity.
+    + t_lit. t_sp. reflexivity.
+    + apply len_ip.
+    + apply Z0. reflexivity.
+  - t_ind. rewrite (n_pm_star_one [Lit s_ip; Ws1] _ _ [] (s_address ++ spc :: render_quad a ++ spc :: render_quad m ++ spc :: s_secondary)).
+    + t_fail. reflexivity.
+    + t_lit. t_sp. reflexivity.
+    + apply len_ip.
+    + apply Z0. reflexivity.
+  - apply V.
+Qed.
+
+Lemma stops_spc_dig (t : list N) : stops is_digit (spc :: t).
+Proof. reflexivity. Qed.
+
+Lemma f_v4addr_render a : valid a ->
+  f_v4addr (render a) = match a with A_address _ q _ => Some (render_quad q) | _ => None end.
+Proof.
+  destruct a; intros V; unfold f_v4addr, cap_n, caps, P_v4addr, render; cbn [valid] in V; norm; cbn [app].
+  - t_ind1. t_fail. reflexivity.
+  - t_ind1. t_fail. reflexivity.
+  - destruct with_ip; rewrite <- ?app_assoc; cbn [app]; t_ind1; [t_lit; t_sp|]; t_fail; reflexivity.
+  - t_ind1. t_fail. reflexivity.
+  - t_ind1. t_fail. reflexivity.
+  - destruct V as [Va Vm]. t_ind1. t_lit. t_sp. t_lit. t_sp.
+    rewrite n_pm_cap_quad by (auto using stops_spc_dig). rewrite <- (app_nil_r (render_quad m)). t_sp.
+    rewrite n_pm_skp_quad by (auto using stops_nil). rewrite n_pm_ws0_nil. fin.
+  - destruct V as [Va Vm]. t_ind1. t_lit. t_sp. t_lit. t_sp.
+    rewrite n_pm_cap_quad by (auto using stops_spc_dig). t_sp.
+    rewrite n_pm_skp_quad by (auto using stops_spc_dig). rewrite n_pm_ws0_one by reflexivity. reflexivity.
+  - apply V.
+Qed.
+
+Lemma f_v4mask_render a : valid a ->
+  f_v4mask (render a) = match a with A_address _ _ m => Some (render_quad m) | _ => None end.
+Proof.
+  destruct a; intros V; unfold f_v4mask, cap_n, caps, P_v4mask, render; cbn [valid] in V; norm; cbn [app].
+  - t_ind1. t_fail. reflexivity.
+  - t_ind1. t_fail. reflexivity.
+  - destruct with_ip; rewrite <- ?app_assoc; cbn [app]; t_ind1; [t_lit; t_sp|]; t_fail; reflexivity.
+  - t_ind1. t_fail. reflexivity.
+  - t_ind1. t_fail. reflexivity.
+  - destruct V as [Va Vm]. t_ind1. t_lit. t_sp. t_lit. t_sp.
+    rewrite n_pm_skp_quad by (auto using stops_spc_dig). rewrite <- (app_nil_r (render_quad m)). t_sp.
+    rewrite n_pm_cap_quad by (auto using stops_nil). rewrite n_pm_ws0_nil. fin.
+  - destruct V as [Va Vm]. t_ind1. t_lit. t_sp. t_lit. t_sp.
+    rewrite n_pm_skp_quad by (auto using stops_spc_dig). t_sp.
+    rewrite n_pm_cap_quad by (auto using stops_spc_dig). rewrite n_pm_ws0_one by reflexivity. reflexivity.
+  - apply V.
+Qed.
+
+Lemma kw_after_address_render (kw : list N) c0 w a : kw = c0 :: w -> is_digit c0 = false ->
+  starts_with kw s_vrf = false -> valid a ->
+  (match a with A_other _ => False | _ => True end) ->
+  matches [Ws1; Lit s_ip; Ws1; Lit s_address; Ws1; Lit kw; Ws0; End] (render a) = false.
+Proof.
+  intros E Hc Hv. destruct a; intros V NO; try contradiction; unfold matches, render; cbn [valid] in V; norm; cbn [app].
+  - t_ind1. t_fail. reflexivity.
+  - t_ind1. t_fail. reflexivity.
+  - destruct with_ip; rewrite <- ?app_assoc; cbn [app]; t_ind1; [t_lit; t_sp|]; t_fail; reflexivity.
+  - t_ind1. t_fail. reflexivity.
+  - t_ind1. t_fail. reflexivity.
+  - destruct V as [Va Vm]. t_ind1. t_lit. t_sp. t_lit. t_sp. subst kw.
+    rewrite n_pm_lit_fail by (apply n_quad_lit_fail; assumption). reflexivity.
+  - destruct V as [Va Vm]. t_ind1. t_lit. t_sp. t_lit. t_sp. subst kw.
+    rewrite n_pm_lit_fail by (apply n_quad_lit_fail; assumption). reflexivity.
+Qed.
+Lemma dhcp_render a : valid a -> matches P_v4dhcp (render a) = false.
+Proof.
+  intros V. destruct a; try (apply (kw_after_address_render s_dhcp 100%N (tl s_dhcp)); [reflexivity|reflexivity|reflexivity|exact V|exact I]).
+  apply V.
+Qed.
+Lemma negotiated_render a : valid a -> matches P_v4negotiated (render a) = false.
+Proof.
+  intros V. destruct a; try (apply (kw_after_address_render s_negotiated 110%N (tl s_negotiated)); [reflexivity|reflexivity|reflexivity|exact V|exact I]).
+  apply V.
+Qed.
+
+(* ------------------------------------------------------------------ whole stanzas *)
+(* an interface stanza: header + attribute lines in ANY order, unrelated lines anywhere among them *)
+Definition mk_stanza (h : str) (attrs : list attr) : stanza :=
+  {| hdr := h; desc := map (fun a => (true, render a)) attrs |}.
+Lemma fam_mk h attrs : fam (mk_stanza h attrs) = h :: map render attrs.
+Proof. unfold fam, mk_stanza. cbn [hdr desc]. rewrite map_map. reflexivity. Qed.
+
+Lemma header_unrelated name : unrelated (s_interface ++ spc :: name).
+Proof. repeat split; reflexivity. Qed.
+
+Lemma fam_first {A} (f : str -> option A) (xval : attr -> option A) h attrs v :
+  f h = None -> (forall a, In a attrs -> f (render a) = xval a) ->
+  (exists a, In a attrs /\ xval a <> None) ->
+  (forall a v', In a attrs -> xval a = Some v' -> v' = v) ->
+  first_some f (h :: map render attrs) = Some v.
+Proof.
+  intros Hh Hf [a0 [Hin Hne]] Hu. apply first_some_unique.
+  - exists (render a0). split; [right; apply in_map; exact Hin|]. rewrite (Hf a0 Hin). exact Hne.
+  - intros l v' [E|Hl] Hv; [subst; congruence|]. apply in_map_iff in Hl. destruct Hl as [a [E Ha]]. subst l.
+    rewrite (Hf a Ha) in Hv. eapply Hu; eauto.
+Qed.
+Lemma fam_none {A} (f : str -> option A) (xval : attr -> option A) h attrs :
+  f h = None -> (forall a, In a attrs -> f (render a) = xval a) -> (forall a, In a attrs -> xval a = None) ->
+  first_some f (h :: map render attrs) = None.
+Proof.
+  intros Hh Hf Hn. apply first_some_none. intros l [E|Hl]; [subst; exact Hh|].
+  apply in_map_iff in Hl. destruct Hl as [a [E Ha]]. subst l. rewrite (Hf a Ha). apply Hn. exact Ha.
+Qed.
+
+Definition x_mtu (a : attr) := match a with A_mtu _ v => Some (render_dec v) | _ => None end.
+Definition x_description (a : attr) := match a with A_description _ t => Some t | _ => None end.
+Definition x_vrf (a : attr) := match a with A_vrf _ _ nm => Some nm | _ => None end.
+Definition x_channel (a : attr) := match a with A_channel _ g _ => Some (render_dec g) | _ => None end.
+Definition x_v4addr (a : attr) := match a with A_address _ q _ => Some (render_quad q) | _ => None end.
+Definition x_v4mask (a : attr) := match a with A_address _ _ m => Some (render_quad m) | _ => None end.
+
+Section Stanza.
+  Variables (h : str) (attrs : list attr).
+  Hypothesis Hh : unrelated h.
+  Hypothesis Hv : Forall valid attrs.
+  Let V a (Ha : In a attrs) : valid a := proj1 (Forall_forall valid attrs) Hv a Ha.
+
+  (* --- manual_mtu *)
+  Lemma mtu_present v : (exists n, In (A_mtu n v) attrs) -> (forall n' v', In (A_mtu n' v') attrs -> v' = v) ->
+    acc_mtu (mk_stanza h attrs) = Some (Z.of_N v).
+  Proof.
+    intros [n Hin] Hu. unfold acc_mtu, int_acc. rewrite fam_mk.
+    rewrite (fam_first (cap_n 0 P_mtu) x_mtu h attrs (render_dec v)).
+    - apply dec_Z_render.
+    - apply Hh.
+    - intros a Ha. apply f_mtu_render. exact (V a Ha).
+    - exists (A_mtu n v). split; [exact Hin|discriminate].
+    - intros a v' Ha E. destruct a; try discriminate. simpl in E. inversion E. f_equal. eapply Hu; eauto.
+  Qed.
+  Lemma mtu_absent : (forall n v, ~ In (A_mtu n v) attrs) -> acc_mtu (mk_stanza h attrs) = Some (-1)%Z.
+  Proof.
+    intros Hn. unfold acc_mtu, int_acc. rewrite fam_mk.
+    rewrite (fam_none (cap_n 0 P_mtu) x_mtu h attrs); [reflexivity|apply Hh| |].
+    - intros a Ha. apply f_mtu_render. exact (V a Ha).
+    - intros a Ha. destruct a; try reflexivity. exfalso. eapply Hn; eauto.
+  Qed.
+
+  (* --- portchannel_number *)
+  Lemma channel_present g : (exists n m, In (A_channel n g m) attrs) -> (forall n' g' m', In (A_channel n' g' m') attrs -> g' = g) ->
+    acc_portchannel (mk_stanza h attrs) = Some (Z.of_N g).
+  Proof.
+    intros [n [m Hin]] Hu. unfold acc_portchannel, int_acc. rewrite fam_mk.
+    rewrite (fam_first (cap_n 0 P_channel) x_channel h attrs (render_dec g)).
+    - apply dec_Z_render.
+    - apply Hh.
+    - intros a Ha. apply f_channel_render. exact (V a Ha).
+    - exists (A_channel n g m). split; [exact Hin|discriminate].
+    - intros a v' Ha E. destruct a; try discriminate. simpl in E. inversion E. f_equal. eapply Hu; eauto.
+  Qed.
+  Lemma channel_absent : (forall n g m, ~ In (A_channel n g m) attrs) -> acc_portchannel (mk_stanza h attrs) = Some (-1)%Z.
+  Proof.
+    intros Hn. unfold acc_portchannel, int_acc. rewrite fam_mk.
+    rewrite (fam_none (cap_n 0 P_channel) x_channel h attrs); [reflexivity|apply Hh| |].
+    - intros a Ha. apply f_channel_render. exact (V a Ha).
+    - intros a Ha. destruct a; try reflexivity. exfalso. eapply Hn; eauto.
+  Qed.
+
+  (* --- description *)
+  Lemma description_present t : (exists n, In (A_description n t) attrs) -> (forall n' t', In (A_description n' t') attrs -> t' = t) ->
+    acc_description (mk_stanza h attrs) = t.
+  Proof.
+    intros [n Hin] Hu. unfold acc_description. rewrite fam_mk.
+    rewrite (fam_first (cap_n 0 P_description) x_description h attrs t); [reflexivity|apply Hh| | |].
+    - intros a Ha. apply f_description_render. exact (V a Ha).
+    - exists (A_description n t). split; [exact Hin|discriminate].
+    - intros a v' Ha E. destruct a; try discriminate. simpl in E. inversion E. subst. eapply Hu; eauto.
+  Qed.
+  Lemma description_absent : (forall n t, ~ In (A_description n t) attrs) -> acc_description (mk_stanza h attrs) = [].
+  Proof.
+    intros Hn. unfold acc_description. rewrite fam_mk.
+    rewrite (fam_none (cap_n 0 P_description) x_description h attrs); [reflexivity|apply Hh| |].
+    - intros a Ha. apply f_description_render. exact (V a Ha).
+    - intros a Ha. destruct a; try reflexivity. exfalso. eapply Hn; eauto.
+  Qed.
+
+  (* --- vrf *)
+  Lemma vrf_present nm : (exists n b, In (A_vrf n b nm) attrs) -> (forall n' b' nm', In (A_vrf n' b' nm') attrs -> nm' = nm) ->
+    acc_vrf (mk_stanza h attrs) = nm.
+  Proof.
+    intros [n [b Hin]] Hu. unfold acc_vrf. rewrite fam_mk.
+    rewrite (fam_first (cap_n 0 P_vrf) x_vrf h attrs nm); [reflexivity|apply Hh| | |].
+    - intros a Ha. apply f_vrf_render. exact (V a Ha).
+    - exists (A_vrf n b nm). split; [exact Hin|discriminate].
+    - intros a v' Ha E. destruct a; try discriminate. simpl in E. inversion E. subst. eapply Hu; eauto.
+  Qed.
+  Lemma vrf_absent : (forall n b nm, ~ In (A_vrf n b nm) attrs) -> acc_vrf (mk_stanza h attrs) = [].
+  Proof.
+    intros Hn. unfold acc_vrf. rewrite fam_mk.
+    rewrite (fam_none (cap_n 0 P_vrf) x_vrf h attrs); [reflexivity|apply Hh| |].
+    - intros a Ha. apply f_vrf_render. exact (V a Ha).
+    - intros a Ha. destruct a; try reflexivity. exfalso. eapply Hn; eauto.
+  Qed.
+
+  (* --- is_shutdown *)
+  Lemma shutdown_iff : acc_shutdown (mk_stanza h attrs) = true <-> exists n, In (A_shutdown n) attrs.
+  Proof.
+    unfold acc_shutdown. rewrite fam_mk. cbn [existsb].
+    assert (E0 : matches P_shutdown h = false) by apply Hh. rewrite E0. cbn [orb].
+    rewrite existsb_exists. split.
+    - intros [l [Hl M]]. apply in_map_iff in Hl. destruct Hl as [a [E Ha]]. subst l.
+      rewrite (shutdown_render a (V a Ha)) in M. destruct a; try discriminate. eauto.
+    - intros [n Hin]. exists (render (A_shutdown n)). split; [apply in_map; exact Hin|].
+      apply (shutdown_render (A_shutdown n) I).
+  Qed.
+
+  (* --- ipv4_addr / ipv4_netmask *)
+  Lemma no_dhcp : existsb (matches P_v4dhcp) (h :: map render attrs) = false /\
+                  existsb (matches P_v4negotiated) (h :: map render attrs) = false.
+  Proof.
+    split; apply existsb_false; intros l [E|Hl]; try (subst; apply Hh);
+      apply in_map_iff in Hl; destruct Hl as [a [E Ha]]; subst l;
+      [apply dhcp_render|apply negotiated_render]; exact (V a Ha).
+  Qed.
+  Lemma address_present q m : (exists n, In (A_address n q m) attrs) ->
+    (forall n' q' m', In (A_address n' q' m') attrs -> q' = q /\ m' = m) ->
+    acc_ipv4_addr (mk_stanza h attrs) = render_quad q /\ acc_ipv4_netmask (mk_stanza h attrs) = render_quad m.
+  Proof.
+    intros [n Hin] Hu. unfold acc_ipv4_addr, acc_ipv4_netmask. rewrite fam_mk.
+    destruct no_dhcp as [D1 D2]. rewrite D1, D2. split.
+    - rewrite (fam_first (cap_n 0 P_v4addr) x_v4addr h attrs (render_quad q)); [reflexivity|apply Hh| | |].
+      + intros a Ha. apply f_v4addr_render. exact (V a Ha).
+      + exists (A_address n q m). split; [exact Hin|discriminate].
+      + intros a v' Ha E. destruct a; try discriminate. simpl in E. inversion E. f_equal. eapply Hu; eauto.
+    - rewrite (fam_first (cap_n 0 P_v4mask) x_v4mask h attrs (render_quad m)); [reflexivity|apply Hh| | |].
+      + intros a Ha. apply f_v4mask_render. exact (V a Ha).
+      + exists (A_address n q m). split; [exact Hin|discriminate].
+      + intros a v' Ha E. destruct a; try discriminate. simpl in E. inversion E. f_equal. eapply Hu; eauto.
+  Qed.
+  Lemma address_absent : (forall n q m, ~ In (A_address n q m) attrs) ->
+    acc_ipv4_addr (mk_stanza h attrs) = [] /\ acc_ipv4_netmask (mk_stanza h attrs) = [].
+  Proof.
+    intros Hn. unfold acc_ipv4_addr, acc_ipv4_netmask. rewrite fam_mk.
+    destruct no_dhcp as [D1 D2]. rewrite D1, D2. split.
+    - rewrite (fam_none (cap_n 0 P_v4addr) x_v4addr h attrs); [reflexivity|apply Hh| |].
+      + intros a Ha. apply f_v4addr_render. exact (V a Ha).
+      + intros a Ha. destruct a; try reflexivity. exfalso. eapply Hn; eauto.
+    - rewrite (fam_none (cap_n 0 P_v4mask) x_v4mask h attrs); [reflexivity|apply Hh| |].
+      + intros a Ha. apply f_v4mask_render. exact (V a Ha).
+      + intros a Ha. destruct a; try reflexivity. exfalso. eapply Hn; eauto.
+  Qed.
+End Stanza.
+
+(* ------------------------------------------------------------------ mask lengths (all 33 netmasks, enumerated) *)
+Definition mask_value (n : N) : N := (2 ^ 32 - 2 ^ (32 - n))%N.
+Definition quad_text (v : N) : str :=
+  render_dec (v / 16777216) ++ [dot] ++ render_dec ((v / 65536) mod 256) ++ [dot] ++
+  render_dec ((v / 256) mod 256) ++ [dot] ++ render_dec (v mod 256).
+Definition mask_text (n : N) : str := quad_text (mask_value n).
+Definition all_lens : list N := map N.of_nat (seq 0 33).
+Lemma masklen_table : forallb (fun n => opt_eqb Z.eqb (masklen_str (mask_text n)) (Some (Z.of_N n))) all_lens = true.
+Proof. vm_compute. reflexivity. Qed.
+Lemma masklen_all n : (n <= 32)%N -> masklen_str (mask_text n) = Some (Z.of_N n).
+Proof.
+  intros H. pose proof masklen_table as T. rewrite forallb_forall in T.
+  assert (Hin : In n all_lens).
+  { unfold all_lens. apply in_map_iff. exists (N.to_nat n). split; [apply N2Nat.id|]. apply in_seq. lia. }
+  specialize (T n Hin). destruct (masklen_str (mask_text n)) as [z|]; [|discriminate]. simpl in T.
+  apply Z.eqb_eq in T. subst. reflexivity.
+Qed.
+
+(* ------------------------------------------------------------------ VLAN sets as bit sets *)
+Lemma range_bits_spec a b n : N.testbit (range_bits a b) n = ((a <=? n) && (n <=? b))%N.
+Proof.
+  unfold range_bits. rewrite N.ldiff_spec.
+  destruct (N.leb_spec a n) as [H1|H1], (N.leb_spec n b) as [H2|H2]; simpl.
+  - rewrite N.ones_spec_low by lia. rewrite N.ones_spec_high by lia. reflexivity.
+  - rewrite N.ones_spec_high by lia. reflexivity.
+  - rewrite N.ones_spec_low by lia. rewrite N.ones_spec_low by lia. reflexivity.
+  - rewrite N.ones_spec_high by lia. reflexivity.
+Qed.
+Lemma vlan_add_spec s t n : N.testbit (N.lor s t) n = N.testbit s n || N.testbit t n.
+Proof. apply N.lor_spec. Qed.
+Lemma vlan_remove_spec s t n : N.testbit (N.ldiff s t) n = N.testbit s n && negb (N.testbit t n).
+Proof. apply N.ldiff_spec. Qed.
+
+(* ------------------------------------------------------------------ word tests over the direct children *)
+Lemma ws_acc (w : list N) : forallb non_space w = true -> forall cur t,
+  split_ws_aux is_space cur (w ++ t) = split_ws_aux is_space (rev w ++ cur) t.
+Proof.
+  induction w as [|c w IH]; intros H cur t; [reflexivity|].
+  simpl in H. apply andb_true_iff in H. destruct H as [Hc Hw]. unfold non_space in Hc. apply negb_true_iff in Hc.
+  simpl app. cbn [split_ws_aux]. rewrite Hc, (IH Hw). simpl rev. rewrite <- app_assoc. reflexivity.
+Qed.
+Lemma ws_spaces n (t : list N) : split_ws_aux is_space [] (repeat spc n ++ t) = split_ws_aux is_space [] t.
+Proof. induction n as [|n IH]; [reflexivity|exact IH]. Qed.
+Lemma rev_nonempty (w : list N) : w <> [] -> exists c r, rev w = c :: r.
+Proof. intros H. destruct (rev w) as [|c r] eqn:E; [|eauto]. exfalso. apply H. rewrite <- (rev_involutive w), E. reflexivity. Qed.
+
+Lemma split_ws_join ws : Forall word ws -> split_ws_aux is_space [] (join [spc] ws) = ws.
+Proof.
+  intros H. induction H as [|x r [Hx1 Hx2] Hr IH]; [reflexivity|].
+  destruct (rev_nonempty x Hx1) as [c [rx E]].
+  destruct r as [|y r'].
+  - cbn [join]. rewrite <- (app_nil_r x) at 1. rewrite (ws_acc x Hx2), app_nil_r, E. cbn [split_ws_aux].
+    rewrite <- E, rev_involutive. reflexivity.
+  - change (join [spc] (x :: y :: r')) with (x ++ spc :: join [spc] (y :: r')).
+    rewrite (ws_acc x Hx2), app_nil_r, E. cbn [split_ws_aux]. change (is_space spc) with true. cbn iota.
+    rewrite <- E, rev_involutive. f_equal. exact IH.
+Qed.
+Definition render_words (n : nat) (ws : list str) : str := ind n ++ join [spc] ws.
+Lemma words_render n ws : Forall word ws -> words (render_words n ws) = ws.
+Proof. intros H. unfold words, split_ws, render_words, ind. rewrite ws_spaces. apply split_ws_join. exact H. Qed.
+
+Lemma word_digits d : digits d -> word d.
+Proof.
+  intros [H1 H2]. split; [exact H1|]. rewrite forallb_forall in *. intros c Hc. specialize (H2 c Hc).
+  unfold non_space. apply negb_true_iff.
+  assert (S : stops is_space (c :: [])) by (apply (digits_stop_space [c] []); split; [discriminate|simpl; rewrite H2; reflexivity]).
+  exact S.
+Qed.
+
+Lemma lstrip_by_all (d : list N) : forallb non_space d = true -> lstrip_by is_space d = d.
+Proof.
+  destruct d as [|c d']; [reflexivity|]. simpl. intros H. apply andb_true_iff in H. destruct H as [Hc _].
+  unfold non_space in Hc. apply negb_true_iff in Hc. rewrite Hc. reflexivity.
+Qed.
+Lemma strip_word (d : list N) : forallb non_space d = true -> strip d = d.
+Proof.
+  intros H. unfold strip, strip_by, rstrip_by. rewrite (lstrip_by_all d H).
+  rewrite lstrip_by_all; [apply rev_involutive|]. rewrite forallb_forall in *. intros c Hc. apply H. apply in_rev. exact Hc.
+Qed.
+Lemma py_int_digits d : digits d -> py_int d = option_map Z.of_N (parse_dec d).
+Proof.
+  intros D. destruct (word_digits d D) as [_ W]. unfold py_int. rewrite (strip_word d W).
+  destruct D as [D1 D2]. destruct d as [|c d']; [congruence|]. simpl in D2. apply andb_true_iff in D2. destruct D2 as [Hc _].
+  unfold is_digit in Hc. apply andb_true_iff in Hc. destruct Hc as [A B]. apply N.leb_le in A, B.
+  destruct (N.eq_dec c 45) as [E|E]; [lia|]. destruct (N.eq_dec c 43) as [E'|E']; [lia|].
+  destruct c as [|p]; [lia|].
+  do 6 (destruct p as [p|p|]; try reflexivity; try lia).
+Qed.
+Lemma py_int_render v : py_int (render_dec v) = Some (Z.of_N v).
+Proof. rewrite (py_int_digits _ (digits_render v)), parse_render_dec. reflexivity. Qed.
+
+Definition kw_word (w : str) : Prop := word w.
+Lemma word_switchport : word s_switchport. Proof. split; [discriminate|reflexivity]. Qed.
+Lemma word_access : word s_access. Proof. split; [discriminate|reflexivity]. Qed.
+Lemma word_vlan : word s_vlan. Proof. split; [discriminate|reflexivity]. Qed.
+Lemma word_trunk : word s_trunk. Proof. split; [discriminate|reflexivity]. Qed.
+Lemma word_native : word s_native. Proof. split; [discriminate|reflexivity]. Qed.
+
+Definition access_line (n : nat) (v : N) : str := render_words n [s_switchport; s_access; s_vlan; render_dec v].
+Definition native_line (n : nat) (v : N) : str := render_words n [s_switchport; s_trunk; s_native; s_vlan; render_dec v].
+Definition is_access_line (l : str) : bool := w_eqb (firstn 3 (words l)) [s_switchport; s_access; s_vlan].
+Definition is_native_line (l : str) : bool :=
+  (length (words l) =? 5) && w_eqb (firstn 4 (words l)) [s_switchport; s_trunk; s_native; s_vlan].
+
+Lemma words_access n v : words (access_line n v) = [s_switchport; s_access; s_vlan; render_dec v].
+Proof.
+  apply words_render.
+  apply Forall_cons; [apply word_switchport|]. apply Forall_cons; [apply word_access|]. apply Forall_cons; [apply word_vlan|].
+  apply Forall_cons; [apply word_digits, digits_render|constructor].
+Qed.
+Lemma words_native n v : words (native_line n v) = [s_switchport; s_trunk; s_native; s_vlan; render_dec v].
+Proof.
+  apply words_render.
+  apply Forall_cons; [apply word_switchport|]. apply Forall_cons; [apply word_trunk|]. apply Forall_cons; [apply word_native|].
+  apply Forall_cons; [apply word_vlan|]. apply Forall_cons; [apply word_digits, digits_render|constructor].
+Qed.
+
+Lemma switchport_child st l rest : In l (kids st) -> words l = s_switchport :: rest -> acc_is_switchport st = true.
+Proof.
+  intros Hin Hw. unfold acc_is_switchport. apply existsb_exists. exists l. split; [exact Hin|]. rewrite Hw. reflexivity.
+Qed.
+
+Lemma access_vlan_present st n v : In (access_line n v) (kids st) ->
+  (forall l, In l (kids st) -> is_access_line l = true -> l = access_line n v) ->
+  acc_access_vlan st = Some (Z.of_N v).
+Proof.
+  intros Hin Hu. unfold acc_access_vlan.
+  rewrite (first_some_unique _ (kids st) (Some (Z.of_N v))); [reflexivity| |].
+  - exists (access_line n v). split; [exact Hin|]. rewrite words_access. discriminate.
+  - intros l v' Hl E. fold (is_access_line l) in E. destruct (is_access_line l) eqn:A; [|discriminate].
+    rewrite (Hu l Hl A), words_access in E. cbn [nth_error] in E. rewrite py_int_render in E. congruence.
+Qed.
+Lemma access_vlan_absent st : (forall l, In l (kids st) -> is_access_line l = false) ->
+  acc_access_vlan st = Some (if acc_is_switchport st then 1 else -1)%Z.
+Proof.
+  intros H. unfold acc_access_vlan. rewrite first_some_none; [reflexivity|].
+  intros l Hl. fold (is_access_line l). rewrite (H l Hl). reflexivity.
+Qed.
+Lemma native_vlan_present st n v : In (native_line n v) (kids st) ->
+  (forall l, In l (kids st) -> is_native_line l = true -> l = native_line n v) ->
+  acc_native_vlan st = Some (Z.of_N v).
+Proof.
+  intros Hin Hu. unfold acc_native_vlan.
+  rewrite (first_some_unique _ (kids st) (Some (Z.of_N v))); [reflexivity| |].
+  - exists (native_line n v). split; [exact Hin|]. rewrite words_native. discriminate.
+  - intros l v' Hl E. fold (is_native_line l) in E. destruct (is_native_line l) eqn:A; [|discriminate].
+    rewrite (Hu l Hl A), words_native in E. cbn [nth_error] in E. rewrite py_int_render in E. congruence.
+Qed.
+Lemma native_vlan_absent st : (forall l, In l (kids st) -> is_native_line l = false) ->
+  acc_native_vlan st = Some (if acc_is_switchport st then 1 else -1)%Z.
+Proof.
+  intros H. unfold acc_native_vlan. rewrite first_some_none; [reflexivity|].
+  intros l Hl. fold (is_native_line l). rewrite (H l Hl). reflexivity.
+Qed.
+
+(* ------------------------------------------------------------------ static routes *)
+Lemma pm_opt_some g r s cs s' : pm g s = Some (cs, s') -> pm (Opt g :: r) s = prepend cs (pm r s').
+Proof. intros H. rewrite pm_cons. cbn [pm_it]. unfold pm in H. rewrite H. reflexivity. Qed.
+Lemma pm_opt_none g r s : pm g s = None -> pm (Opt g :: r) s = prepend (repeat None (ncaps g)) (pm r s).
+Proof. intros H. rewrite pm_cons. cbn [pm_it]. unfold pm in H. rewrite H. reflexivity. Qed.
+Lemma pm_cap_nondig r w t : word w -> (exists c w', w = c :: w' /\ w' <> [] /\ is_digit c = false) -> stops non_space t ->
+  pm (Cap KNonDig :: r) (w ++ t) = prepend [Some w] (pm r t).
+Proof.
+  intros [W1 W2] [c [w' [E [Hw' Hc]]]] S. subst w. rewrite pm_cons. cbn [pm_it take app]. rewrite Hc.
+  simpl in W2. apply andb_true_iff in W2. destruct W2 as [_ W2].
+  rewrite (span1_all non_space w' t Hw' W2 S). reflexivity.
+Qed.
+Lemma pm_cap_nondig_fail r d t : digits d -> pm (Cap KNonDig :: r) (d ++ t) = None.
+Proof.
+  intros [D1 D2]. rewrite pm_cons. destruct d as [|c d']; [congruence|]. simpl in D2. apply andb_true_iff in D2.
+  destruct D2 as [Hc _]. cbn [pm_it take app]. rewrite Hc. reflexivity.
+Qed.
+Lemma take_quad_fail_digits d t : digits d -> stops is_digit t -> (match t with c :: _ => N.eqb c dot = false | [] => True end) ->
+  take_quad (d ++ t) = None.
+Proof.
+  intros [D1 D2] S Hd. unfold take_quad. rewrite (span1_all is_digit d t D1 D2 S).
+  destruct t as [|c t']; [reflexivity|]. rewrite Hd. reflexivity.
+Qed.
+Lemma take_quad_fail_alpha c t : is_digit c = false -> take_quad (c :: t) = None.
+Proof. intros H. unfold take_quad, span1. simpl. rewrite H. reflexivity. Qed.
+
+Definition n_pm_opt_some := ltac:(norm_of pm_opt_some).
+Definition n_pm_opt_none := ltac:(norm_of pm_opt_none).
+Definition n_pm_cap_nondig := ltac:(norm_of pm_cap_nondig).
+Definition n_pm_cap_nondig_fail := ltac:(norm_of pm_cap_nondig_fail).
+
+(* the optional groups of _RE_IP_ROUTE *)
+Definition G_vrf := [Ws1; Lit s_vrf; Ws1; Cap KNS1].
+Definition G_intf := [Ws1; Cap KNonDig].
+Definition G_nh := [Ws1; Cap KQuad].
+Definition G_dhcp := [Ws1; Lit s_dhcp].
+Definition G_global := [Ws1; Lit s_global].
+Definition G_ad := [Ws1; Cap KDig].
+Definition G_mcast := [Ws1; Lit s_multicast].
+Definition G_name := [Ws1; Lit s_name; Ws1; Cap KNS1].
+Definition G_perm := [Ws1; Lit s_permanent].
+Definition G_track := [Ws1; Lit s_track; Ws1; Cap KDig].
+Definition G_tag := [Ws1; Lit s_tag; Ws1; Cap KDig].
+Definition R_tag := [Opt G_tag].
+Definition R_track := Opt G_track :: R_tag.
+Definition R_perm := Opt G_perm :: R_track.
+Definition R_name := Opt G_name :: R_perm.
+Definition R_mcast := Opt G_mcast :: R_name.
+Definition R_ad := Opt G_ad :: R_mcast.
+Definition R_global := Opt G_global :: R_ad.
+Definition R_dhcp := Opt G_dhcp :: R_global.
+Definition R_nh := Opt G_nh :: R_dhcp.
+Definition R_intf := Opt G_intf :: R_nh.
+Lemma P_ip_route_eq : P_ip_route = [Lit s_ip; Ws1; Lit s_route; Opt G_vrf; Ws1; Cap KQuad; Ws1; Cap KQuad] ++ R_intf.
+Proof. reflexivity. Qed.
+
+(* rendering of the optional trailing fields *)
+Definition seg_num (kw : str) (o : option N) : str :=
+  match o with Some v => spc :: kw ++ spc :: render_dec v | None => [] end.
+Definition T_tag (tag : option N) : str := seg_num s_tag tag.
+Definition T_track (track tag : option N) : str := seg_num s_track track ++ T_tag tag.
+Definition T_name (name : option str) (track tag : option N) : str :=
+  (match name with Some nm => spc :: s_name ++ spc :: nm | None => [] end) ++ T_track track tag.
+Definition T_ad (ad : option N) name track tag : str :=
+  (match ad with Some a => spc :: render_dec a | None => [] end) ++ T_name name track tag.
+Definition T_nh (nh : option quad) ad name track tag : str :=
+  (match nh with Some q => spc :: render_quad q | None => [] end) ++ T_ad ad name track tag.
+Definition T_intf (intf : option str) nh ad name track tag : str :=
+  (match intf with Some i => spc :: i | None => [] end) ++ T_nh nh ad name track tag.
+
+Definition od (o : option N) : option str := option_map render_dec o.
+
+(* a tail is empty or starts with a blank followed by a non-blank *)
+Ltac grp_none :=
+  first [ reflexivity
+        | rewrite n_pm_ws1_one by stop_tac; first [ rewrite n_pm_lit_fail by reflexivity; reflexivity
+                                                   | rewrite n_pm_lit_fail by (apply digits_head_ne; [apply digits_render|reflexivity]); reflexivity ] ].
+
+Lemma L_tag tag : pm R_tag (T_tag tag) = Some ([od tag], []).
+Proof.
+  unfold R_tag, T_tag, seg_num. norm. destruct tag as [g|].
+  - rewrite (n_pm_opt_some G_tag [] _ [Some (render_dec g)] []); [reflexivity|].
+    unfold G_tag. norm. t_sp. t_lit. rewrite <- (app_nil_r (render_dec g)). t_sp.
+    rewrite n_pm_cap_dig by (auto using digits_render, stops_nil). fin.
+  - reflexivity.
+Qed.
+Lemma L_track track tag : pm R_track (T_track track tag) = Some ([od track; od tag], []).
+Proof.
+  unfold R_track, T_track, seg_num. norm. destruct track as [t|].
+  - rewrite (n_pm_opt_some G_track R_tag _ [Some (render_dec t)] (T_tag tag)); [rewrite L_tag; reflexivity|].
+    unfold G_track. norm. cbn [app]. rewrite <- ?app_assoc. cbn [app]. t_sp. t_lit. t_sp.
+    rewrite n_pm_cap_dig; [fin|apply digits_render|].
+    unfold T_tag, seg_num. destruct tag; reflexivity.
+  - cbn [app]. rewrite n_pm_opt_none; [rewrite L_tag; reflexivity|].
+    unfold G_track, T_tag, seg_num. norm. destruct tag; grp_none.
+Qed.
+
+Ltac untail := unfold T_intf, T_nh, T_ad, T_name, T_track, T_tag, seg_num.
+Ltac split_opts := repeat match goal with |- context [match ?o with Some _ => _ | None => _ end] => destruct o end.
+Ltac grp_none2 :=
+  first [ reflexivity
+        | rewrite n_pm_ws1_one by stop_tac;
+          first [ reflexivity
+                | rewrite n_pm_lit_fail by reflexivity; reflexivity
+                | rewrite n_pm_lit_fail by (apply digits_head_ne; [apply digits_render|reflexivity]); reflexivity ] ].
+Ltac tails := untail; norm; split_opts; cbn [app]; rewrite <- ?app_assoc; cbn [app]; grp_none2.
+
+Lemma tail_stops (p : N -> bool) : p spc = false ->
+  forall intf nh ad name track tag,
+  stops p (T_track track tag) /\ stops p (T_name name track tag) /\ stops p (T_ad ad name track tag) /\
+  stops p (T_nh nh ad name track tag) /\ stops p (T_intf intf nh ad name track tag) /\ stops p (T_tag tag).
+Proof.
+  intros Hp intf nh ad name track tag. untail.
+  destruct intf, nh, ad, name, track, tag; cbn [app]; repeat split; first [exact Hp | exact I].
+Qed.
+
+Lemma L_perm track tag : pm R_perm (T_track track tag) = Some ([od track; od tag], []).
+Proof. unfold R_perm. norm. rewrite n_pm_opt_none; [rewrite L_track; reflexivity|]. unfold G_perm. tails. Qed.
+
+Lemma L_name name track tag : (forall nm, name = Some nm -> word nm) ->
+  pm R_name (T_name name track tag) = Some ([name; od track; od tag], []).
+Proof.
+  intros Hw. unfold R_name, T_name. norm. destruct name as [nm|].
+  - rewrite (n_pm_opt_some G_name R_perm _ [Some nm] (T_track track tag)); [rewrite L_perm; reflexivity|].
+    unfold G_name. norm. cbn [app]. rewrite <- ?app_assoc. cbn [app]. t_sp. t_lit.
+    rewrite n_pm_ws1_one by (apply word_stop_space; apply Hw; reflexivity).
+    rewrite n_pm_cap_word; [fin|apply Hw; reflexivity|].
+    apply (tail_stops non_space eq_refl None None None None track tag).
+  - cbn [app]. rewrite n_pm_opt_none; [rewrite L_perm; reflexivity|]. unfold G_name. tails.
+Qed.
+
+Lemma L_mcast name track tag : (forall nm, name = Some nm -> word nm) ->
+  pm R_mcast (T_name name track tag) = Some ([name; od track; od tag], []).
+Proof. intros Hw. unfold R_mcast. norm. rewrite n_pm_opt_none; [rewrite L_name by exact Hw; reflexivity|]. unfold G_mcast. tails. Qed.
+
+Lemma L_ad ad name track tag : (forall nm, name = Some nm -> word nm) ->
+  pm R_ad (T_ad ad name track tag) = Some ([od ad; name; od track; od tag], []).
+Proof.
+  intros Hw. unfold R_ad, T_ad. norm. destruct ad as [a|].
+  - rewrite (n_pm_opt_some G_ad R_mcast _ [Some (render_dec a)] (T_name name track tag)); [rewrite L_mcast by exact Hw; reflexivity|].
+    unfold G_ad. norm. cbn [app]. t_sp. rewrite n_pm_cap_dig; [fin|apply digits_render|].
+    apply (tail_stops is_digit eq_refl None None None name track tag).
+  - cbn [app]. rewrite n_pm_opt_none; [rewrite L_mcast by exact Hw; reflexivity|]. unfold G_ad. tails.
+Qed.
+
+Lemma L_global ad name track tag : (forall nm, name = Some nm -> word nm) ->
+  pm R_global (T_ad ad name track tag) = Some ([od ad; name; od track; od tag], []).
+Proof. intros Hw. unfold R_global. norm. rewrite n_pm_opt_none; [rewrite L_ad by exact Hw; reflexivity|]. unfold G_global. tails. Qed.
+Lemma L_dhcp ad name track tag : (forall nm, name = Some nm -> word nm) ->
+  pm R_dhcp (T_ad ad name track tag) = Some ([od ad; name; od track; od tag], []).
+Proof. intros Hw. unfold R_dhcp. norm. rewrite n_pm_opt_none; [rewrite L_global by exact Hw; reflexivity|]. unfold G_dhcp. tails. Qed.
+
+Lemma pm_cap_quad_fail_digits r d t : digits d -> stops is_digit t ->
+  (match t with c :: _ => N.eqb c dot = false | [] => True end) -> pm (Cap KQuad :: r) (d ++ t) = None.
+Proof. intros D S H. rewrite pm_cons. cbn [pm_it take]. rewrite (take_quad_fail_digits d t D S H). reflexivity. Qed.
+Definition n_pm_cap_quad_fail_digits := ltac:(norm_of pm_cap_quad_fail_digits).
+
+Definition oq (o : option quad) : option str := option_map render_quad o.
+
+Lemma L_nh nh ad name track tag : (forall nm, name = Some nm -> word nm) -> (forall q, nh = Some q -> wfq q) ->
+  pm R_nh (T_nh nh ad name track tag) = Some ([oq nh; od ad; name; od track; od tag], []).
+Proof.
+  intros Hw Hq. unfold R_nh, T_nh. norm. destruct nh as [q|].
+  - rewrite (n_pm_opt_some G_nh R_dhcp _ [Some (render_quad q)] (T_ad ad name track tag)); [rewrite L_dhcp by exact Hw; reflexivity|].
+    unfold G_nh. norm. cbn [app]. rewrite n_pm_ws1_one by (apply quad_stop_space; apply Hq; reflexivity).
+    rewrite n_pm_cap_quad; [fin|apply Hq; reflexivity|].
+    apply (tail_stops is_digit eq_refl None None ad name track tag).
+  - cbn [app]. rewrite n_pm_opt_none; [rewrite L_dhcp by exact Hw; reflexivity|]. unfold G_nh.
+    unfold T_ad. norm. destruct ad as [a|].
+    + cbn [app]. t_sp. rewrite n_pm_cap_quad_fail_digits; [reflexivity|apply digits_render| |].
+      * apply (tail_stops is_digit eq_refl None None None name track tag).
+      * untail. destruct name, track, tag; cbn [app]; first [reflexivity|exact I].
+    + tails.
+Qed.
+
+Definition intf_ok (i : str) : Prop := word i /\ exists c w', i = c :: w' /\ w' <> [] /\ is_digit c = false.
+
+Lemma L_intf intf nh ad name track tag :
+  (forall nm, name = Some nm -> word nm) -> (forall q, nh = Some q -> wfq q) -> (forall i, intf = Some i -> intf_ok i) ->
+  (intf <> None \/ nh <> None) ->
+  pm R_intf (T_intf intf nh ad name track tag) = Some ([intf; oq nh; od ad; name; od track; od tag], []).
+Proof.
+  intros Hw Hq Hi Hor. unfold R_intf, T_intf. norm. destruct intf as [i|].
+  - destruct (Hi i eq_refl) as [Wi Ni].
+    rewrite (n_pm_opt_some G_intf R_nh _ [Some i] (T_nh nh ad name track tag)); [rewrite L_nh by assumption; reflexivity|].
+    unfold G_intf. norm. cbn [app]. rewrite n_pm_ws1_one by (apply word_stop_space; exact Wi).
+    rewrite n_pm_cap_nondig; [fin|exact Wi|exact Ni|].
+    apply (tail_stops non_space eq_refl None nh ad name track tag).
+  - destruct nh as [q|]; [|destruct Hor; congruence].
+    cbn [app]. rewrite n_pm_opt_none; [rewrite L_nh by assumption; reflexivity|]. unfold G_intf, T_nh. norm. cbn [app].
+    pose proof (Hq q eq_refl) as Wq. rewrite n_pm_ws1_one by (apply quad_stop_space; exact Wq).
+    destruct (quad_digits_head q (T_ad ad name track tag) Wq) as [d [t' [D E]]]. norm. rewrite E.
+    apply n_pm_cap_nondig_fail. exact D.
+Qed.
+
+(* a static route description and its rendering:
+   ip route [vrf V] PREFIX MASK [INTERFACE] [NEXTHOP] [DISTANCE] [name N] [track T] [tag G] *)
+Record rdesc := { d_vrf : option str; d_prefix : quad; d_mask : quad; d_intf : option str; d_nh : option quad;
+                  d_ad : option N; d_name : option str; d_track : option N; d_tag : option N }.
+Definition rdesc_ok (d : rdesc) : Prop :=
+  (forall v, d_vrf d = Some v -> word v) /\ wfq (d_prefix d) /\ wfq (d_mask d) /\
+  (forall i, d_intf d = Some i -> intf_ok i) /\ (forall q, d_nh d = Some q -> wfq q) /\
+  (forall nm, d_name d = Some nm -> word nm) /\ (d_intf d <> None \/ d_nh d <> None).
+Definition render_route (d : rdesc) : str :=
+  s_ip ++ spc :: s_route ++ (match d_vrf d with Some v => spc :: s_vrf ++ spc :: v | None => [] end) ++
+  spc :: render_quad (d_prefix d) ++ spc :: render_quad (d_mask d) ++
+  T_intf (d_intf d) (d_nh d) (d_ad d) (d_name d) (d_track d) (d_tag d).
+
+Lemma route_caps d : rdesc_ok d ->
+  caps P_ip_route (render_route d) =
+  Some [d_vrf d; Some (render_quad (d_prefix d)); Some (render_quad (d_mask d)); d_intf d; oq (d_nh d); od (d_ad d);
+        d_name d; od (d_track d); od (d_tag d)].
+Proof.
+  intros [Hv [Hp [Hm [Hi [Hq [Hn Hor]]]]]]. unfold caps. rewrite P_ip_route_eq. unfold render_route. norm. cbn [app].
+  t_lit. t_sp. t_lit.
+  assert (TS : stops is_digit (T_intf (d_intf d) (d_nh d) (d_ad d) (d_name d) (d_track d) (d_tag d))).
+  { apply (tail_stops is_digit eq_refl (d_intf d) (d_nh d) (d_ad d) (d_name d) (d_track d) (d_tag d)). }
+  assert (REST : forall c0 : list (option (list N)),
+            prepend c0 (pm (Ws1 :: Cap KQuad :: Ws1 :: Cap KQuad :: R_intf)
+              (spc :: render_quad (d_prefix d) ++ spc :: render_quad (d_mask d) ++
+               T_intf (d_intf d) (d_nh d) (d_ad d) (d_name d) (d_track d) (d_tag d))) =
+            Some (c0 ++ [Some (render_quad (d_prefix d)); Some (render_quad (d_mask d)); d_intf d; oq (d_nh d); od (d_ad d);
+                          d_name d; od (d_track d); od (d_tag d)], [])).
+  { intros c0. norm. rewrite n_pm_ws1_one by (apply quad_stop_space; exact Hp).
+    rewrite n_pm_cap_quad by (auto using stops_spc_dig). rewrite n_pm_ws1_one by (apply quad_stop_space; exact Hm).
+    rewrite n_pm_cap_quad by assumption. rewrite L_intf by assumption. reflexivity. }
+  destruct (d_vrf d) as [v|] eqn:Ev.
+  - rewrite (n_pm_opt_some G_vrf _ _ [Some v]
+               (spc :: render_quad (d_prefix d) ++ spc :: render_quad (d_mask d) ++
+                T_intf (d_intf d) (d_nh d) (d_ad d) (d_name d) (d_track d) (d_tag d))).
+    + rewrite REST. reflexivity.
+    + unfold G_vrf. norm. cbn [app]. rewrite <- ?app_assoc. cbn [app]. t_sp. t_lit.
+      rewrite n_pm_ws1_one by (apply word_stop_space; apply Hv; reflexivity).
+      rewrite n_pm_cap_word; [fin|apply Hv; reflexivity|reflexivity].
+  - cbn [app]. rewrite n_pm_opt_none.
+    + cbn [ncaps list_sum map ncaps_it G_vrf repeat plus]. rewrite REST. reflexivity.
+    + unfold G_vrf. norm. rewrite n_pm_ws1_one by (apply quad_stop_space; exact Hp).
+      rewrite n_pm_lit_fail by (apply n_quad_lit_fail; [exact Hp|reflexivity]). reflexivity.
+Qed.
+
+Definition ostr_ (o : option str) : str := match o with Some s => s | None => [] end.
+Lemma route_roundtrip d : rdesc_ok d ->
+  exists r, parse_route (render_route d) = Some r /\
+    r_vrf r = ostr_ (d_vrf d) /\ r_prefix r = render_quad (d_prefix d) /\ r_mask r = render_quad (d_mask d) /\
+    r_nh_intf r = ostr_ (d_intf d) /\ r_nh_addr r = ostr_ (oq (d_nh d)) /\
+    r_ad r = Some (match d_ad d with Some a => Z.of_N a | None => 1%Z end) /\
+    r_name r = ostr_ (d_name d) /\ r_track r = ostr_ (od (d_track d)) /\ r_tag r = ostr_ (od (d_tag d)).
+Proof.
+  intros Hok. unfold parse_route. rewrite (route_caps d Hok). eexists. split; [reflexivity|].
+  cbn [r_vrf r_prefix r_mask r_nh_intf r_nh_addr r_ad r_name r_track r_tag]. repeat split.
+  destruct (d_ad d) as [a|]; [|reflexivity]. cbn [od option_map].
+  destruct (render_dec a) as [|c0 rest] eqn:E; [exfalso; exact (render_dec_nonempty a E)|].
+  cbn [str_eqb]. rewrite <- E. apply dec_Z_render.
+Qed.
+
+(* non-vacuity: a concrete stanza and a concrete route *)
+Example ex_attrs : Forall valid [A_mtu 0 1500; A_description 0 [117; 112]%N; A_shutdown 0; A_vrf 0 true [82]%N].
+Proof. repeat constructor; try discriminate. Qed.
+Example ex_mtu : acc_mtu (mk_stanza (s_interface ++ spc :: [71; 105; 49]%N)
+                           [A_description 0 [117; 112]%N; A_shutdown 0; A_mtu 0 1500; A_vrf 0 true [82]%N]) = Some 1500%Z.
+Proof. vm_compute. reflexivity. Qed.
+Definition ex_rd : rdesc := {| d_vrf := Some [82]%N; d_prefix := ([49; 48], [48], [48], [48])%N;
+   d_mask := ([50; 53; 53], [48], [48], [48])%N; d_intf := Some [78; 117; 108; 108; 48]%N; d_nh := None;
+   d_ad := Some 200%N; d_name := Some [120]%N; d_track := None; d_tag := Some 7%N |}.
+Example ex_rd_ok : rdesc_ok ex_rd.
+Proof.
+  unfold rdesc_ok, ex_rd. cbn [d_vrf d_prefix d_mask d_intf d_nh d_name].
+  split; [intros x E; inversion E; split; [discriminate|reflexivity]|].
+  split; [repeat split; try discriminate; reflexivity|].
+  split; [repeat split; try discriminate; reflexivity|].
+  split; [intros x E; inversion E; split; [split; [discriminate|reflexivity]|]; eexists; eexists; split; [reflexivity|split; [discriminate|reflexivity]]|].
+  split; [intros x E; discriminate|].
+  split; [intros x E; inversion E; split; [discriminate|reflexivity]|].
+  left. discriminate.
 Qed.
